@@ -2,6 +2,7 @@ SPECIFICATION TSpec
 CONSTANTS
   N = 2
   Vals = {0}
+  Shift = 0
   Legacy = FALSE
   Mode = "none"
 CHECK_DEADLOCK FALSE
